@@ -209,8 +209,9 @@ def run_pairs(desc, ctx):
                                          "input_format": vin["fmt"]})
         # climatology: zeros under -C, missing under -c
         for ctype in ("divide", "subtract"):
-            dsc = gen.make_dataset(rng, n_inputs=rng.choice([1, 2]), clim=True, miss=0.0, sparse=0.0, same_dims=True, vrange=(1, 14),
-                                   max_t=4, max_l=3, max_s=3)
+            # (negative values too: x / 0 is then -inf, which is as missing as +inf)
+            dsc = gen.make_dataset(rng, n_inputs=rng.choice([1, 2]), clim=True, miss=0.0, sparse=0.0, same_dims=True,
+                                   vrange=rng.choice([(1, 14), (-9, 9), (-12, -1)]), max_t=4, max_l=3, max_s=3)
             times, leads, locs = refmodel.common_dims(dsc)
             allc = [(t, l, s[0]) for t in times for l in leads for s in locs]
             K = rng.sample(allc, max(1, len(allc) // 3))
